@@ -735,6 +735,7 @@ func checkC11(c *Ctx) {
 		c.R.Hold("R-register-first", "the registering handler sends nothing to the session through the table", "", "no send found on either side of the registration")
 	}
 	c11SlotOwner(c)
+	c11OnceScope(c)
 	// "notifications sent afterwards arrive on the newer stream": whatever is written to a stream record's writer is
 	// written under that record's write lock, and every acquisition of it is released on every path
 	streamWriteLocked(c, "R-stream-locked", true)
